@@ -10,6 +10,14 @@ Stages (after build + audit done by harness.main):
       (found by a marker field, independently of any naming function); sites field, repeated, map value, oneof,
       rpc input, rpc output (unary and streaming); all-at-once (protoc + plugin binary) and pairwise in isolation
       (plugin's generate_code on protoc's descriptors); circular packages throughout.
+  L   (K32 mechanism) every field annotation of the generated packages of G (standard dataclasses) is evaluated on the REAL
+      classes BOTH ways - betterproto's own Message._type_hints (module namespace only) and with the class namespace in scope
+      (typing.get_type_hints with localns = vars(cls), what typing's default and pydantic do) - and success / failure of each is
+      compared, inside Coq, with Model/C13Hints.v betterproto_hint / class_scope_hint (Spec/PyImportLocals.v resolve_with_locals)
+      evaluated on the model's get_type_reference in the world of the real modules, with the REAL keys of vars(cls) as namespace.
+      The class-scoped evaluation failing on the fields called like their import alias (and on aliases that are dunder names of
+      every class: packages doc / module referenced from a child) is the K32 mechanism: REPORTED AS A COUNT, not a C13 failure
+      (K32 is recorded under C18); a disagreement between model and real classes is a correspondence violation.
 """
 import itertools
 import json
@@ -28,6 +36,11 @@ TRUSTED = [
     "specification coq/Spec/PyImport.v (what `import m as z` / `from ..x import y as z` bind inside a package, what a dotted "
     "annotation denotes): final bindings only, import-time ordering of circular packages is exercised by real generation, not modelled",
     "hand-written model coq/Model/Importing.v tied to /repo by executable correspondence (this harness, vm_compute inside Coq)",
+    "specification coq/Spec/PyImportLocals.v (eval of a dotted annotation with a class namespace as locals: typing.get_type_hints' default "
+    "for classes, pydantic) and coq/Model/C13Hints.v (Message._type_hints passes an EMPTY locals mapping), tied by stage L: both evaluations "
+    "of every generated field annotation on the real classes vs the model inside Coq, with the real keys of vars(cls)",
+    "the field-name theorems (C13_locals_fields_exact, C13_field_name_no_double_underscore, C13_desc_alias_is_field_name) are about the casing "
+    "MODEL coq/Model/Casing.v (safe_snake_case = pythonize_field_name), whose correspondence with casing.py is property C19's check",
     "translator harness/gen_c13.py (WRAPPER_TYPES and sample values of the casing functions -> coq/gen/C13Tables.v)",
     "casing.pascal_case / safe_snake_case are parameters of the theorems; the hypotheses made about them are sampled here on the real functions",
     "Python side: .proto writer, marker-based identification of the target class, typing.get_type_hints, grpc_tools.protoc 1.84, "
@@ -48,12 +61,19 @@ ASSUMPTIONS = [
     "world model of Spec/PyImport.v: module attributes = its classes, then its sub-packages; names a module binds through its own "
     "imports are not attributes visible to OTHER modules' from-imports; final bindings only (no import-time ordering)",
     "Jinja rendering and Python's importer are exercised for real in the generation tie but no theorem speaks about them",
+    "class-scoped evaluation (Spec/PyImportLocals.v): an object a class body binds (a field's default, a method, the __module__ / __doc__ "
+    "strings) is neither a module nor a generated class and has no attribute named like a generated class, so a reference whose first name "
+    "is a key of the class namespace denotes nothing; which keys a class namespace has is NOT modelled - the theorems hold for any list of "
+    "names, the field-name corollaries for the pythonised field names, and stage L feeds the model the real keys of vars(cls)",
 ]
 RULE = ("T2: exhaustive over ordered pairs of package paths of depth 0..3 over {a,b,c} x {message, nested message, enum, nested enum}; "
         "all strings over {a,B,.,_,newline} up to length 5 for the regex; random odd names. "
         "Generation: all ordered pairs over the path set of the tier, each pair x 4 kinds x {field, repeated, map value, oneof} "
         "+ rpc in/out unary and streaming; non-trivial = referencing package differs from target package; "
-        "distinct = distinct (referencing path, target path, kind, site)")
+        "distinct = distinct (referencing path, target path, kind, site). "
+        "L: every field of the generated message classes of G's unlabelled jobs plus four own jobs (parent packages doc / module = dunder alias; "
+        "shop / shop.item with and without a field called like the alias), each evaluated module-level and class-scoped; class-scoped failures are "
+        "counted by cause, not failures of C13")
 
 IMPORTS_BASE = "Model.Importing gen.C13Tables"
 KINDS = ["Msg", "Outer.Inner", "En", "Outer.NEn"]          # top-level message, nested message, enum, nested enum
@@ -487,7 +507,7 @@ def types_proto(P, lower=False):
             "enum En { TOP_ZERO = 0; TOP_ONE = 1; }\n")
 
 
-def refs_proto(P, targets, jobdir, full, services=True):
+def refs_proto(P, targets, jobdir, full, services=True, alias_fields=True):
     """message Refs in package P referencing the 4 kinds of every target package.
     Returns (text, expectations) ; expectations: list of dicts {field|rpc, site, target, kind}"""
     lines = ['syntax = "proto3";', pkg_stmt(P)]
@@ -505,7 +525,7 @@ def refs_proto(P, targets, jobdir, full, services=True):
             site = SITES[s]
             fname = f"f{ti}_{site}_{k}"
             rest = list(Q)[len(P):]
-            if site == "field" and (s, k) == combos[0] and len(Q) > len(P) and list(Q)[:len(P)] == list(P) and "_".join(rest) not in used_names:
+            if alias_fields and site == "field" and (s, k) == combos[0] and len(Q) > len(P) and list(Q)[:len(P)] == list(P) and "_".join(rest) not in used_names:
                 # the field is called exactly like the alias under which the descendant package is imported (`from . import b`,
                 # `from .b import c as b_c`): annotations must resolve against the MODULE, not against the class attribute of
                 # that name (seeded change C13-5)
@@ -535,7 +555,7 @@ def refs_proto(P, targets, jobdir, full, services=True):
     return "\n".join(lines) + "\n", exp
 
 
-def make_job(jid, edges, full, label=None, root_mode="pkg"):
+def make_job(jid, edges, full, label=None, root_mode="pkg", services=True, alias_fields=True):
     """edges: {P: [Q, ...]} referencing package -> target packages. Every package mentioned gets a types file."""
     jobdir = f"j{jid}"
     pk = set(edges)
@@ -545,7 +565,7 @@ def make_job(jid, edges, full, label=None, root_mode="pkg"):
     for P in sorted(pk):
         protos[f"t/types_{'-'.join(P) or 'root'}.proto"] = types_proto(P)
     for P, qs in sorted(edges.items()):
-        text, exp = refs_proto(P, qs, jobdir, full)
+        text, exp = refs_proto(P, qs, jobdir, full, services=services, alias_fields=alias_fields)
         protos[f"{jobdir}/refs_{'-'.join(P) or 'root'}.proto"] = text
         expect[".".join(P)] = exp
     return {"id": jid, "root": f"c13r{os.getpid()}_{jid}", "refs": f"RefsJ{jid}", "svc": f"SvcJ{jid}", "protos": protos, "expect": expect, "label": label,
@@ -664,6 +684,87 @@ def check_job(job, modname):
 '''
 
 
+# ---- stage L: both evaluations of every field annotation on the real classes (runs in the same subprocesses as CHECK_SNIPPET,
+#      after check_job; uses its helpers leaves / find_target) ---------------------------------------------------------------
+LOCALS_SNIPPET = r'''
+def fwd_strings(a, acc):
+    if isinstance(a, str):
+        acc.append(a)
+    elif isinstance(a, typing.ForwardRef):
+        acc.append(a.__forward_arg__)
+    else:
+        for x in typing.get_args(a):
+            fwd_strings(x, acc)
+    return acc
+
+def locals_job(job):
+    out = {"fields": [], "classes": {}, "ns": {}, "whole": {}, "error": None}
+    root = job["root"]
+    def mname(dotted):
+        if job["root_mode"] == "top":
+            return dotted
+        return root + ("." + dotted if dotted else "")
+    try:
+        mods = {p: importlib.import_module(mname(p)) for p in job["packages"]}
+    except BaseException as e:
+        out["error"] = f"import raised {type(e).__name__}: {e}"
+        return out
+    for p, mod in mods.items():
+        out["classes"][p] = sorted(n for n, v in vars(mod).items() if isinstance(v, type) and getattr(v, "__module__", None) == mod.__name__)
+    for p, exps in job["expect"].items():
+        mod = mods[p]
+        try:
+            Refs = getattr(mod, job["refs"])
+            ns = dict(vars(Refs))
+        except BaseException as e:
+            out["error"] = f"{p}: {type(e).__name__}: {e}"
+            continue
+        out["ns"][p] = sorted(ns)
+        try:
+            bp = Refs._type_hints()                       # betterproto's own evaluation: get_type_hints(cls, module.__dict__, {})
+        except BaseException as e:
+            bp = None
+        try:
+            typing.get_type_hints(Refs, vars(mod))        # the whole class at once, class namespace in scope (localns defaults to vars(cls))
+            out["whole"][p] = True
+        except BaseException as e:
+            out["whole"][p] = False
+        for e in exps:
+            if "field" not in e:
+                continue
+            rec = {"pkg": p, "target": e["target"], "kind": e["kind"], "field": e["field"], "site": e["site"]}
+            try:
+                q = ".".join(e["target"])
+                tg = find_target(mods[q], e["kind"])
+                if len(tg) != 1:
+                    rec["error"] = "target class not uniquely generated"
+                    out["fields"].append(rec); continue
+                tg = tg[0]
+                bound = [n for n, v in vars(mods[q]).items() if v is tg]
+                rec["tname"] = bound[0] if bound else tg.__name__
+                ann = Refs.__annotations__[e["field"]]
+                rec["fwd"] = fwd_strings(ann, [])
+                H = type("H", (), {"__annotations__": {e["field"]: ann}})    # one annotation, evaluated in explicitly given namespaces
+                def is_tg(h):
+                    return [c for c in leaves(h, []) if c not in (str, type(None))] == [tg]
+                rec["bp_ok"] = bool(bp is not None and is_tg(bp[e["field"]]))
+                try:
+                    rec["mod_ok"] = bool(is_tg(typing.get_type_hints(H, vars(mod), {})[e["field"]]))
+                except BaseException as ex:
+                    rec["mod_ok"] = False
+                try:
+                    rec["cls_ok"] = bool(is_tg(typing.get_type_hints(H, vars(mod), dict(ns))[e["field"]]))
+                    rec["cls_err"] = None
+                except BaseException as ex:
+                    rec["cls_ok"] = False
+                    rec["cls_err"] = f"{type(ex).__name__}: {ex}"[:160]
+            except BaseException as ex:
+                rec["error"] = f"{type(ex).__name__}: {ex}"[:300]
+            out["fields"].append(rec)
+    return out
+'''
+
+
 def worker_main(argv):
     """python -m harness.props.c13 --worker <jobs.json> <descriptor set> <base dir> <out json>
     For every job: plugin's generate_code on a request holding exactly the job's files, write the response under
@@ -683,6 +784,7 @@ def worker_main(argv):
     monkey_patch_oneof_index()
     ns = {}
     exec(CHECK_SNIPPET, ns)
+    exec(LOCALS_SNIPPET, ns)
     sys.path.insert(0, base)
     os.environ["PATH"] = os.path.join(base, "shim") + ":" + os.environ.get("PATH", "")
     results = []
@@ -718,6 +820,11 @@ def worker_main(argv):
             fails, n = ns["check_job"](job, None)
             res["fails"] = fails
             res["checked"] = n
+            if not job.get("label") and not fails:
+                try:                                  # stage L (additional; never alters the result of the checks above)
+                    res["locals"] = ns["locals_job"](job)
+                except BaseException as e:  # noqa
+                    res["locals"] = {"error": f"locals_job raised {type(e).__name__}: {e}", "fields": [], "classes": {}, "ns": {}, "whole": {}}
             if job["root_mode"] == "top":
                 sys.path.remove(rootdir)
                 for k in [k for k in sys.modules if k.split(".")[0] in {p.split(".")[0] for p in job["packages"] if p}]:
@@ -802,8 +909,13 @@ def run_job_protoc(ctx, job):
     jf = os.path.join(base, f"job_{job['id']}.json")
     with open(jf, "w") as f:
         json.dump(job, f)
-    code = ("import json,sys\nfrom harness.props.c13 import CHECK_SNIPPET\nns={}\nexec(CHECK_SNIPPET,ns)\n"
-            f"job=json.load(open({jf!r}))\nfails,n=ns['check_job'](job,None)\nprint('RESULT'+json.dumps({{'fails':fails,'checked':n}}))\n")
+    code = ("import json,sys\nfrom harness.props.c13 import CHECK_SNIPPET, LOCALS_SNIPPET\nns={}\nexec(CHECK_SNIPPET,ns)\nexec(LOCALS_SNIPPET,ns)\n"
+            f"job=json.load(open({jf!r}))\nfails,n=ns['check_job'](job,None)\n"
+            "loc=None\n"
+            "if not fails:\n"
+            "    try:\n        loc=ns['locals_job'](job)\n"
+            "    except BaseException as e:\n        loc={'error': 'locals_job raised %s: %s' % (type(e).__name__, e), 'fields': [], 'classes': {}, 'ns': {}, 'whole': {}}\n"
+            "print('RESULT'+json.dumps({'fails':fails,'checked':n,'locals':loc}))\n")
     rc, out = pu.run_in_subprocess(base, code, timeout=600)
     for line in out.splitlines():
         if line.startswith("RESULT"):
@@ -882,6 +994,9 @@ def generation(ctx):
 
 
 def report(ctx, job, r, mode):
+    if not hasattr(ctx, "c13_locals"):
+        ctx.c13_locals = []
+    ctx.c13_locals.append((job, r))                 # for stage L
     for p, exps in job["expect"].items():
         for e in exps:
             P = tuple(p.split(".")) if p else ()
@@ -1038,6 +1153,222 @@ def special_witnesses(ctx):
 
 
 # ======================================================================================================
+# L: module-level vs class-scoped evaluation of every field annotation (the K32 mechanism), model vs real classes
+# ======================================================================================================
+IMPORTS_LOCALS = "Spec.PyImport Spec.PyImportLocals Model.Importing Model.C13Hints Proofs.ImportingP4 gen.C13Tables"
+
+
+def locals_stage(ctx):
+    """Compares, inside Coq, Model/C13Hints.v betterproto_hint / class_scope_hint with what the REAL generated classes give when each
+    field annotation is evaluated by Message._type_hints (module namespace) and with vars(cls) as locals. Class-scoped failures are
+    counted by cause (field called like the alias = K32; alias is a dunder name of every class), never reported as C13 failures."""
+    from betterproto import casing
+    from betterproto.compile import importing
+    from betterproto.compile.naming import pythonize_class_name
+    from betterproto.plugin import typing_compiler as tcm
+
+    t0 = time.time()
+    # ---- own witness jobs: the alias is a name EVERY class namespace holds (C13_locals_dunder_refuted); plus the K32 schema's shape
+    # (messages only: with a streaming rpc these packages do not even import in the standard variant - the service Base class
+    #  carries the UNQUOTED annotation AsyncIterator[__doc__.X], evaluated in the class body where __doc__ is the docstring; see K35)
+    own = [make_job(9001, {("doc", "api"): [("doc",)]}, full=True, services=False),
+           make_job(9002, {("module", "x"): [("module",)], ("a", "b"): [("doc",)]}, full=True, services=False),
+           make_job(9003, {("shop",): [("shop", "item"), ("shop", "item", "part")]}, full=True),
+           # descendants WITHOUT a field called like the alias: the class-scoped evaluation must succeed (positive side of the iff)
+           make_job(9004, {("shop",): [("shop", "item"), ("shop", "item", "part")], ("a",): [("a", "b"), ("a", "b", "c")], (): [("a",), ("a", "b")]},
+                    full=True, alias_fields=False)]
+    try:
+        res = run_jobs_inprocess(ctx, own, nproc=len(own))
+    except Exception:  # noqa
+        ctx.fail("oracle", "stage L: generating the dunder witnesses raised: " + traceback.format_exc()[-1200:], cls=None, input=None)
+        res = {}
+    stash = list(getattr(ctx, "c13_locals", []))
+    for j in own:
+        r = res.get(j["id"], {"fails": [{"what": "no result"}], "checked": 0})
+        for f in r["fails"][:2]:            # these packages must import and resolve at MODULE level like any other
+            ctx.fail("oracle", f"stage L witness job: {f['what']}"[:900], cls=None, input={"packages": j["packages"], "protos": j["protos"], "detail": f})
+        stash.append((j, r))
+
+    typing_c = tcm.DirectImportTypingCompiler()
+    s = typing_c.optional("@")
+    pre, suf = s.split("@")
+    opt = f"(fun s => {coq_bytes(pre.encode())} ++ s ++ {coq_bytes(suf.encode())})"
+    cls_t = {k: pythonize_class_name(k) for k in KINDS}
+    snk_in = set()
+    defs, pairs, descr = [], [], []
+    groups = []                 # (first pair, first def) of each group of jobs compared by one coq_compare call (own prelude)
+    stats = {"fields": 0, "cls_fail": 0, "cls_fail_own_alias": 0, "cls_fail_field_alias": 0, "cls_fail_dunder": 0, "cls_fail_other": 0, "jobs": 0,
+             "whole_fail": 0, "desc_ok": 0}
+
+    def coq_path(pth):
+        return "[" + "; ".join(coq_bytes(x.encode()) for x in pth) + "]"
+
+    def names(l):
+        return "[" + "; ".join(coq_bytes(x.encode()) for x in l) + "]"
+
+    for job, r in stash:
+        if job.get("label") or r.get("fails"):
+            continue
+        loc = r.get("locals")
+        if not loc:
+            continue
+        if loc.get("error"):
+            ctx.fail("corr", "stage L could not inspect the generated classes: " + str(loc["error"])[:600], no_input=True,
+                     theorem_or_correspondence="L correspondence Model/C13Hints.v <-> real classes")
+            continue
+        stats["jobs"] += 1
+        if not groups or len(pairs) - groups[-1][0] >= 1500:
+            groups.append((len(pairs), len(defs)))
+        jid = job["id"]
+        root = job["root"]
+        wdefs = "; ".join(f"({coq_path([root] + (p.split('.') if p else []))}, {names(cl_)})" for p, cl_ in sorted(loc["classes"].items()))
+        defs.append(f"Definition W{jid} : world := world_of {coq_path([root])} {names(job['packages'])} [{wdefs}] [].")
+        for k, (p, ns) in enumerate(sorted(loc["ns"].items())):
+            defs.append(f"Definition NS{jid}_{k} : list (list byte) := {names(ns)}.")
+        nsidx = {p: k for k, (p, _) in enumerate(sorted(loc["ns"].items()))}
+        per_pkg = {}
+        for rec in loc["fields"]:
+            if rec.get("error"):
+                ctx.fail("corr", f"stage L: {rec['pkg']}.{rec['field']}: {rec['error']}"[:600], no_input=True,
+                         theorem_or_correspondence="L correspondence Model/C13Hints.v <-> real classes")
+                continue
+            cur = rec["pkg"].split(".") if rec["pkg"] else []
+            tgt = list(rec["target"])
+            src = "." + ".".join(tgt + [rec["kind"]])
+            for i in range(len(tgt)):
+                snk_in.add(".".join(tgt[i:]))
+            # the annotation really carries the string get_type_reference returns (T2 ties that function to the model)
+            real_ref = importing.get_type_reference(package=rec["pkg"], imports=set(), source_type=src, typing_compiler=typing_c)
+            if real_ref.strip('"') not in rec["fwd"]:
+                ctx.fail("corr", f"stage L: annotation of {rec['pkg']}.{rec['field']} holds {rec['fwd']}, get_type_reference returns {real_ref}",
+                         input={"packages": job["packages"], "protos": job["protos"], "field": rec},
+                         theorem_or_correspondence="L: generated annotation = get_type_reference's string")
+            ns = loc["ns"][rec["pkg"]]
+            head = real_ref.strip('"').split(".")[0]
+            stats["fields"] += 1
+            ctx.count("L_rel:" + relation(tuple(cur), tuple(tgt)))
+            per_pkg.setdefault(rec["pkg"], []).append(rec["cls_ok"])
+            if not rec["cls_ok"]:
+                stats["cls_fail"] += 1
+                if head == rec["field"]:
+                    stats["cls_fail_own_alias"] += 1                # THE K32 schema: the field is called like the alias of its own type
+                elif head in ns and head.startswith("__") and head.endswith("__"):
+                    stats["cls_fail_dunder"] += 1                   # alias = a dunder name of every class (doc / module one level up)
+                elif head in ns:
+                    stats["cls_fail_field_alias"] += 1              # another field of the message is called like this alias
+                else:
+                    stats["cls_fail_other"] += 1
+                ctx.seen_nontrivial(("L-shadowed", tuple(cur), tuple(tgt), rec["kind"], rec["site"]))
+            elif relation(tuple(cur), tuple(tgt)) == "descendant":
+                stats["desc_ok"] += 1
+            if rec["mod_ok"] != rec["bp_ok"]:
+                ctx.fail("oracle", f"Message._type_hints and typing.get_type_hints(cls, module namespace, {{}}) differ on {rec['pkg']}.{rec['field']}: "
+                         f"{rec['bp_ok']} vs {rec['mod_ok']}", cls=None, input={"packages": job["packages"], "protos": job["protos"], "field": rec})
+            m = (f"(let ref := get_type_reference CLS SNK OPT {coq_bytes(rec['pkg'].encode())} {coq_bytes(src.encode())} true false in "
+                 f"let P := {coq_path([root] + cur)} in let TP := {coq_path([root] + tgt)} in let TN := {coq_bytes(rec['tname'].encode())} in "
+                 f"CL [cbool (hint_is_class (betterproto_hint W{jid} P NS{jid}_{nsidx[rec['pkg']]} ref) TP TN); "
+                 f"cbool (hint_is_class (class_scope_hint W{jid} P NS{jid}_{nsidx[rec['pkg']]} ref) TP TN)])")
+            pairs.append((m, cl([lib.cbool(rec["bp_ok"]), lib.cbool(rec["cls_ok"])])))
+            descr.append((job, rec))
+        # the whole class at once (what typing.get_type_hints(cls, vars(module)) does) agrees with the field-by-field evaluation
+        for p, oks in per_pkg.items():
+            whole = loc["whole"].get(p)
+            if not whole:
+                stats["whole_fail"] += 1
+            if whole != all(oks):
+                ctx.fail("corr", f"stage L: typing.get_type_hints({p}.Refs, vars(module)) {'succeeds' if whole else 'raises'} but the field-by-field "
+                         f"class-scoped evaluation says {'all resolve' if all(oks) else 'some field fails'}", no_input=True,
+                         theorem_or_correspondence="L: field-by-field evaluation = whole-class evaluation")
+    snk_t = {x: casing.safe_snake_case(x) for x in snk_in}
+    head = f"Definition CLS := tbl_fun {coq_tbl(cls_t)}.\nDefinition SNK := tbl_fun {coq_tbl(snk_t)}.\nDefinition OPT := {opt}.\n"
+    ctx.cov["evaluations"] += 2 * len(pairs)
+    bad = []
+    for gi, (p0, d0) in enumerate(groups):
+        p1, d1 = groups[gi + 1] if gi + 1 < len(groups) else (len(pairs), len(defs))
+        if p1 > p0:
+            bad += [p0 + i for i in lib.coq_compare(ctx, f"c13loc{gi}", IMPORTS_LOCALS, pairs[p0:p1], chunk=250,
+                                                     prelude=head + "\n".join(defs[d0:d1]) + "\n")]
+    ctx.cov["disagreements_checked"] += len(pairs)
+    for i in bad[:8]:
+        job, rec = descr[i]
+        ctx.fail("corr", f"model (betterproto_hint / class_scope_hint) and the real classes disagree on {rec['pkg'] or '<root>'}.Refs.{rec['field']} "
+                 f"-> {'.'.join(rec['target'])}:{rec['kind']}: real [module-level ok, class-scoped ok] = [{rec['bp_ok']}, {rec['cls_ok']}] ({rec.get('cls_err')})",
+                 input={"packages": job["packages"], "protos": job["protos"] if len(job["protos"]) <= 8 else "(all-at-once universe)", "field": rec},
+                 model_expr=pairs[i][0][:900], observed_impl=pairs[i][1],
+                 theorem_or_correspondence="L correspondence Model/C13Hints.v + Spec/PyImportLocals.v <-> Message._type_hints / typing.get_type_hints on the real classes")
+    ctx.count("L_jobs", stats["jobs"])
+    ctx.count("L_fields_compared_both_ways", stats["fields"])
+    ctx.count("L_class_scoped_failures_total(K32 mechanism, not a C13 failure)", stats["cls_fail"])
+    ctx.count("L_class_scoped_failures:field_called_like_the_alias_of_its_own_type(K32 schema)", stats["cls_fail_own_alias"])
+    ctx.count("L_class_scoped_failures:other_field_of_the_message_called_like_the_alias", stats["cls_fail_field_alias"])
+    ctx.count("L_class_scoped_successes_on_descendant_references(no field called like the alias)", stats["desc_ok"])
+    ctx.count("L_class_scoped_failures:alias_is_dunder_of_every_class", stats["cls_fail_dunder"])
+    ctx.count("L_class_scoped_failures:other", stats["cls_fail_other"])
+    ctx.count("L_classes_whose_whole_class_scoped_hints_raise", stats["whole_fail"])
+    if stats["cls_fail_other"]:
+        ctx.notes.append(f"stage L: {stats['cls_fail_other']} class-scoped failures not explained by a namespace key (compared with the model all the same)")
+    # coverage of the comparison (notes, not failures: a library whose classes no longer bind these names would simply not show K32)
+    if stats["fields"] and not stats["cls_fail_own_alias"]:
+        ctx.notes.append("stage L: no field called like its import alias failed class-scoped (the K32 mechanism was not observed on this tree)")
+    if stats["fields"] and not stats["desc_ok"]:
+        ctx.notes.append("stage L: no descendant reference resolved class-scoped (positive side of the exact condition not exercised)")
+    if stats["fields"] and not stats["cls_fail_dunder"]:
+        ctx.notes.append("stage L: the dunder-alias witnesses (packages doc / module) did not fail class-scoped on this tree")
+    ctx.notes.append(f"stage L: {stats['fields']} field annotations of {stats['jobs']} generated jobs evaluated both ways on the real classes and in Coq; "
+                     f"module-level all resolve; class-scoped evaluation fails on {stats['cls_fail']} "
+                     f"({stats['cls_fail_own_alias']} fields called like the alias of their own type = K32 schema, {stats['cls_fail_field_alias']} further references "
+                     f"through an alias that another field is called like, {stats['cls_fail_dunder']} through an alias that is a dunder name of every class), "
+                     f"model agrees on all but {len(bad)}; {time.time() - t0:.0f}s")
+    for i in (0, len(pairs) // 2):
+        if i < len(pairs):
+            ctx.sample({"case": ["L", descr[i][1]["pkg"], descr[i][1]["field"], descr[i][1]["target"]], "impl": pairs[i][1]})
+
+
+K35_CLS = "K35-service-class-body-shadows-alias"
+
+
+def service_scope_witnesses(ctx):
+    """(proposed finding K35) the service Base class evaluates the unquoted annotations of streaming rpcs in its class body: an rpc
+    method / a dunder name of the class body that equals the import alias breaks the import of the generated package (standard variant).
+    The model's verdict for the same reference with the class-body names in scope is C13_service_scope_refuted / C13_locals_dunder_refuted."""
+    from .. import plugin_util as pu
+
+    cases = {
+        "rpc-named-like-alias": ({
+            "shop/item.proto": 'syntax="proto3"; package shop.item; message Item { int32 x = 1; }',
+            "shop/main.proto": 'syntax="proto3"; package shop; import "shop/item.proto"; service Shop { rpc Item(shop.item.Item) returns (shop.item.Item); '
+                               'rpc Watch(stream shop.item.Item) returns (stream shop.item.Item); }'}, "shop", "ShopBase", "shop.item", "Item"),
+        "parent-package-doc": ({
+            "doc/t.proto": 'syntax="proto3"; package doc; message T { int32 x = 1; }',
+            "doc/api.proto": 'syntax="proto3"; package doc.api; import "doc/t.proto"; service Api { rpc Watch(stream doc.T) returns (stream doc.T); }'},
+            "doc.api", "ApiBase", "doc", "T"),
+    }
+    for name, (protos, pkg, base_cls, tpkg, tcls) in cases.items():
+        root = f"c13k34{os.getpid()}_{name.split('-')[0]}"
+        try:
+            rc, out, _ = pu.generate(ctx.work, protos, root)
+            if rc != 0:
+                ctx.fail("oracle", f"[{K35_CLS}] plugin failed on {name}: {out[-300:]}", cls=None, input={"protos": protos})
+                continue
+            code = ("import importlib\ntry:\n"
+                    f" m = importlib.import_module({(root + '.' + pkg)!r}); t = importlib.import_module({(root + '.' + tpkg)!r})\n"
+                    f" hd = list(getattr(m, {base_cls!r})().__mapping__().values())\n"
+                    f" ok = all(h.request_type is getattr(t, {tcls!r}) and h.reply_type is getattr(t, {tcls!r}) for h in hd)\n"
+                    " print('RESULT', 'ok' if ok else 'handler types wrong: %r' % hd)\n"
+                    "except BaseException as e:\n print('RESULT', 'import raised %s: %s' % (type(e).__name__, e))\n")
+            rc, out = pu.run_in_subprocess(ctx.work, code)
+            res = [l for l in out.splitlines() if l.startswith("RESULT")]
+            verdict = res[0][7:] if res else "no result: " + out[-300:]
+            ctx.count("L_service_class_body_witnesses")
+            if verdict != "ok":
+                ctx.fail("oracle", f"[{K35_CLS}] {name}: {verdict}"[:500], cls=K35_CLS, input={"protos": protos})
+            else:
+                ctx.notes.append(f"witness {K35_CLS} ({name}) did not fail")
+        except Exception:  # noqa
+            ctx.fail("oracle", f"[{K35_CLS}] witness {name} raised: " + traceback.format_exc()[-800:], cls=None, input={"protos": protos})
+
+
+# ======================================================================================================
 def run(ctx):
     t_run = time.time()
     try:
@@ -1058,6 +1389,18 @@ def run(ctx):
         generation(ctx)
     except Exception:  # noqa
         ctx.fail("oracle", "real generation stage raised: " + traceback.format_exc()[-1500:], cls=None, input=None)
+    try:
+        service_scope_witnesses(ctx)
+    except Exception:  # noqa
+        ctx.fail("oracle", "stage L service witnesses raised: " + traceback.format_exc()[-1200:], cls=None, input=None)
+    try:
+        locals_stage(ctx)
+    except RuntimeError as e:
+        ctx.fail("corr", "stage L: model evaluation failed: " + str(e)[-1500:], no_input=True,
+                 theorem_or_correspondence="L correspondence Model/C13Hints.v")
+    except Exception:  # noqa
+        ctx.fail("corr", "stage L raised: " + traceback.format_exc()[-1500:], no_input=True,
+                 theorem_or_correspondence="L correspondence Model/C13Hints.v")
     ctx.notes.append(f"stage times: build+audit {t_run - ctx.t0:.0f}s, hypotheses+T2 {t_t2 - t_run:.0f}s, generation {time.time() - t_t2:.0f}s")
 
 
